@@ -11,10 +11,10 @@ import (
 )
 
 func init() {
-	register(&Rule{ID: "R1.err-before-effect", Props: []string{"C01"}, Floor: 15,
+	register(&Rule{ID: "R1.err-before-effect", Props: []string{"C01", "C03"}, Floor: 15,
 		Text: "'a command that returns an error or a negative answer changes nothing': in every write handler, from every effective mutation of persistent state (cols, a collection, hooks; a Collection.Delete counts only on its non-nil continuation) no feasible path reaches a return that carries a non-nil error or the NX/XX negative reply — path search on go/cfg with boolean correlation (xx/nx/ok idioms) and the fact that a collection created on the path holds no ids",
 		Run:  ruleErrBeforeEffect})
-	register(&Rule{ID: "R1.empty-collection", Props: []string{"C01", "C19"}, Floor: 3,
+	register(&Rule{ID: "R1.empty-collection", Props: []string{"C01", "C19", "C03"}, Floor: 3,
 		Text: "'a collection exists iff it holds an object', delete half: in every function that deletes an object from a collection obtained from the keyspace, the delete is followed on every normal path by a test of Count() == 0 that removes the collection from the keyspace; create half: a collection registered in the keyspace while still empty receives an object on every normal path that follows",
 		Run:  ruleEmptyCollection})
 }
